@@ -22,6 +22,9 @@ NB = param("nb", 4)
 B0 = param("b0", None)
 
 
+GAPS = ["", " ", "  ", "\t", " " * 12, " " * 40, " \t  \t"]     # blanks between the comment leader and the marker: any amount
+
+
 def _pick(pool, i):
     """Element of a concrete pool chosen by a symbolic index (explicit branching keeps the strings concrete: str.lower()/strip() on symbolic strings make CrossHair enumerate models)."""
     for k in range(len(pool)):
@@ -32,10 +35,10 @@ def _pick(pool, i):
 
 def h_marked(ns: int, u0: bool, u1: bool, u2: bool, u3: bool, ti: int, ck: int, line: int) -> bool:
     """
-    pre: 0 <= ns <= 3 and 0 <= ti < len(TAILS) and 0 <= ck < len(CKINDS) and line >= 1
+    pre: 0 <= ns < len(GAPS) and 0 <= ti < len(TAILS) and 0 <= ck < len(CKINDS) and line >= 1
     post: _
     """
-    text = LEADERS[LI] + _pick(["", " ", "  ", "   "], ns) + _marker(u0, u1, u2, u3) + _pick(TAILS, ti)
+    text = LEADERS[LI] + _pick(GAPS, ns) + _marker(u0, u1, u2, u3) + _pick(TAILS, ti)
     tok = Token(Location(line, 7), _pick(CKINDS, ck), text)
     other = Token(Location(line, 1), PT.Name, "nocl")          # a non-comment token never qualifies
     got = filter_nocl_comment_tokens([other, tok])
